@@ -63,6 +63,7 @@ func runC15(p *Prog, r *Report) {
 	if !c.anchors() {
 		return
 	}
+	c.operandKinds()
 	c.relational()
 	c.extSignatures()
 	c.capabilities()
@@ -703,4 +704,452 @@ func (c *c15ctx) closure() {
 		r.Undec(rule, "validate:descendant-tests", "-", "expected descendant tests for the action and the entity hierarchy, found "+itoa(n))
 	}
 	_ = token.ADD
+}
+
+// ---------------------------------------------------------------------------------------------
+// R15.1k operand-kind agreement: for each operator, the kinds of operand types the validator lets through must be kinds
+// the evaluator accepts for that operand (language table, checked against the evaluator by C01 R1.3). Extracted from
+// the typing functions on the AST: an operand's inferred type is the first result of a call to the dispatcher; a
+// *requirement* on it is an `if` whose condition contains the negation of a type test of that value (`!ok` of
+// `v.(T)`, `!pred(v)`, or a non-nil result of an expectation function applied to it) and whose body produces an error.
+
+var cedarKindOf = map[string][]string{
+	"typeLong": {"Long"}, "typeBool": {"Boolean"}, "typeTrue": {"Boolean"}, "typeFalse": {"Boolean"}, "typeString": {"String"},
+	"typeSet": {"Set"}, "typeEntity": {"EntityUID"}, "typeRecord": {"Record"}, "typeNever": {},
+}
+
+func evalKindsOf(spec string) map[string]bool {
+	out := map[string]bool{}
+	for _, k := range strings.Split(spec, "|") {
+		if k == "Comparable" {
+			out["Long"], out["Datetime"], out["Duration"] = true, true, true
+			continue
+		}
+		out[k] = true
+	}
+	return out
+}
+
+type c15kinds struct {
+	set map[string]bool // evaluator-side kind names; "Extension:*" for an unconstrained extension type
+	any bool
+}
+
+func (c *c15ctx) operandKinds() {
+	p, r := c.p, c.r
+	const rule = "R15.1k-operand-kinds"
+	pk := p.Pkgs[pValidate]
+	info := pk.TypesInfo
+	dispObj := c.dispatch.Object()
+	predMemo := map[*types.Func]map[string]bool{}
+
+	extName := func(s string) string {
+		switch s {
+		case "datetime":
+			return "Datetime"
+		case "duration":
+			return "Duration"
+		case "decimal":
+			return "Decimal"
+		case "ipaddr":
+			return "IPAddr"
+		}
+		return "Extension:" + s
+	}
+	kindsOfType := func(t types.Type, body ast.Node) []string {
+		n := namedOf(t)
+		if n == nil {
+			return nil
+		}
+		if n.Obj().Name() == "typeExtension" {
+			// narrowed by comparisons of .name with constants inside the guarded body
+			var names []string
+			if body != nil {
+				ast.Inspect(body, func(nd ast.Node) bool {
+					if be, ok := nd.(*ast.BinaryExpr); ok && be.Op == token.EQL {
+						for _, side := range []ast.Expr{be.X, be.Y} {
+							if v := info.Types[side].Value; v != nil && v.Kind() == constant.String {
+								names = append(names, extName(constant.StringVal(v)))
+							}
+						}
+					}
+					return true
+				})
+			}
+			if len(names) == 0 {
+				return []string{"Extension:*"}
+			}
+			return names
+		}
+		if ks, ok := cedarKindOf[n.Obj().Name()]; ok {
+			return ks
+		}
+		return []string{n.Obj().Name()}
+	}
+	// mayAccept: the statements contain a return whose last/only relevant result is not the literal rejection
+	mayAccept := func(body ast.Node, errResult bool) bool {
+		acc := false
+		ast.Inspect(body, func(nd ast.Node) bool {
+			ret, ok := nd.(*ast.ReturnStmt)
+			if !ok || len(ret.Results) == 0 {
+				return true
+			}
+			last := ret.Results[len(ret.Results)-1]
+			if errResult {
+				if id, ok := last.(*ast.Ident); ok && id.Name == "nil" {
+					acc = true
+				}
+			} else {
+				if id, ok := last.(*ast.Ident); !ok || id.Name != "false" {
+					acc = true
+				}
+			}
+			return true
+		})
+		return acc
+	}
+	var acceptedBy func(body *ast.BlockStmt, param types.Object, errResult bool, depth int) map[string]bool
+	acceptedByFunc := func(fo *types.Func, depth int) map[string]bool {
+		if m, ok := predMemo[fo]; ok {
+			return m
+		}
+		predMemo[fo] = map[string]bool{}
+		dr := declIndex(p)[fo]
+		if dr == nil || dr.fd.Type.Params.NumFields() != 1 || len(dr.fd.Type.Params.List[0].Names) != 1 {
+			return nil
+		}
+		sig := fo.Type().(*types.Signature)
+		errRes := sig.Results().Len() == 1 && isErrorType(sig.Results().At(0).Type())
+		m := acceptedBy(dr.fd.Body, dr.pk.TypesInfo.Defs[dr.fd.Type.Params.List[0].Names[0]], errRes, depth+1)
+		predMemo[fo] = m
+		return m
+	}
+	acceptedBy = func(body *ast.BlockStmt, param types.Object, errResult bool, depth int) map[string]bool {
+		out := map[string]bool{}
+		if depth > 4 || body == nil {
+			return out
+		}
+		isParam := func(e ast.Expr) bool {
+			id, ok := ast.Unparen(e).(*ast.Ident)
+			return ok && (info.Uses[id] == param)
+		}
+		ast.Inspect(body, func(nd ast.Node) bool {
+			switch x := nd.(type) {
+			case *ast.TypeSwitchStmt:
+				if op := typeSwitchOperand(x); op != nil && isParam(op) {
+					for _, st := range x.Body.List {
+						cc := st.(*ast.CaseClause)
+						if !mayAccept(cc, errResult) {
+							continue
+						}
+						for _, e := range cc.List {
+							for _, k := range kindsOfType(info.Types[e].Type, cc) {
+								out[k] = true
+							}
+						}
+					}
+					return false
+				}
+			case *ast.IfStmt:
+				// if x, ok := param.(T); ok { … accept … }
+				if as, ok := x.Init.(*ast.AssignStmt); ok && len(as.Rhs) == 1 {
+					if ta, ok := as.Rhs[0].(*ast.TypeAssertExpr); ok && isParam(ta.X) && ta.Type != nil && mayAccept(x.Body, errResult) {
+						for _, k := range kindsOfType(info.Types[ta.Type].Type, x.Body) {
+							out[k] = true
+						}
+					}
+				}
+				// if pred(param) { accept }
+				if call, ok := ast.Unparen(x.Cond).(*ast.CallExpr); ok && len(call.Args) == 1 && isParam(call.Args[0]) && mayAccept(x.Body, errResult) {
+					if fo := calleeObj(info, call); fo != nil && fo.Pkg() == pk.Types {
+						for k := range acceptedByFunc(fo, depth) {
+							out[k] = true
+						}
+					}
+				}
+			}
+			return true
+		})
+		return out
+	}
+
+	// language table per node kind
+	var kinds []string
+	for k := range langOperands {
+		kinds = append(kinds, k)
+	}
+	sort.Strings(kinds)
+	done := map[string]bool{}
+	n := 0
+	for _, kind := range kinds {
+		h := c.handlers[kind]
+		if h == nil {
+			r.Anchor(rule, "typing function for "+kind)
+			continue
+		}
+		fd := funcDecl(h)
+		if fd == nil {
+			continue
+		}
+		// how the dispatch calls the handler (to resolve function-typed parameters)
+		paramArgs := map[types.Object]ast.Expr{}
+		if dd := funcDecl(c.dispatch); dd != nil {
+			ast.Inspect(dd, func(nd ast.Node) bool {
+				cc, ok := nd.(*ast.CaseClause)
+				if !ok {
+					return true
+				}
+				match := false
+				for _, e := range cc.List {
+					if nn := namedOf(info.Types[e].Type); nn != nil && nn.Obj().Name() == kind {
+						match = true
+					}
+				}
+				if !match {
+					return true
+				}
+				ast.Inspect(cc, func(n2 ast.Node) bool {
+					if call, ok := n2.(*ast.CallExpr); ok {
+						if fo := calleeObj(info, call); fo != nil && p.SSA.FuncValue(fo) == h {
+							i := 0
+							for _, fl := range fd.Type.Params.List {
+								for _, nm := range fl.Names {
+									if i < len(call.Args) {
+										paramArgs[info.Defs[nm]] = call.Args[i]
+									}
+									i++
+								}
+							}
+						}
+					}
+					return true
+				})
+				return false
+			})
+		}
+		// operand variables in order of their typing calls
+		// operand i = the i-th distinct expression handed to the dispatcher; it may be typed at several places (error
+		// recovery paths) into several variables
+		var operandExprs []string
+		operandVars := map[string][]types.Object{}
+		ast.Inspect(fd.Body, func(nd ast.Node) bool {
+			as, ok := nd.(*ast.AssignStmt)
+			if !ok || len(as.Rhs) != 1 || len(as.Lhs) < 1 {
+				return true
+			}
+			call, ok := as.Rhs[0].(*ast.CallExpr)
+			if !ok || len(call.Args) < 2 {
+				return true
+			}
+			if fo := calleeObj(info, call); fo == nil || types.Object(fo) != dispObj {
+				return true
+			}
+			key := types.ExprString(call.Args[1])
+			if _, seen := operandVars[key]; !seen {
+				operandExprs = append(operandExprs, key)
+				operandVars[key] = nil
+			}
+			if id, ok := as.Lhs[0].(*ast.Ident); ok && id.Name != "_" {
+				o := info.Defs[id]
+				if o == nil {
+					o = info.Uses[id]
+				}
+				if o != nil {
+					operandVars[key] = append(operandVars[key], o)
+				}
+			}
+			return true
+		})
+		want := langOperands[kind]
+		// requirements per operand
+		okVars := map[types.Object]struct {
+			v types.Object
+			t types.Type
+		}{}
+		ast.Inspect(fd.Body, func(nd ast.Node) bool {
+			as, ok := nd.(*ast.AssignStmt)
+			if !ok || len(as.Lhs) != 2 || len(as.Rhs) != 1 {
+				return true
+			}
+			ta, ok := as.Rhs[0].(*ast.TypeAssertExpr)
+			if !ok || ta.Type == nil {
+				return true
+			}
+			vid, ok := ast.Unparen(ta.X).(*ast.Ident)
+			okid, ok2 := as.Lhs[1].(*ast.Ident)
+			if !ok || !ok2 {
+				return true
+			}
+			oo := info.Defs[okid]
+			if oo == nil {
+				oo = info.Uses[okid]
+			}
+			okVars[oo] = struct {
+				v types.Object
+				t types.Type
+			}{info.Uses[vid], info.Types[ta.Type].Type}
+			return true
+		})
+		makesErr := func(body ast.Node) bool {
+			found := false
+			ast.Inspect(body, func(nd ast.Node) bool {
+				switch x := nd.(type) {
+				case *ast.CallExpr:
+					if t := info.Types[x].Type; t != nil && isErrorType(t) {
+						found = true
+					}
+				case *ast.UnaryExpr:
+					if cl, ok := x.X.(*ast.CompositeLit); ok && x.Op == token.AND {
+						if t := info.Types[cl].Type; t != nil && types.Implements(types.NewPointer(t), types.Universe.Lookup("error").Type().Underlying().(*types.Interface)) {
+							found = true
+						}
+					}
+				}
+				return true
+			})
+			return found
+		}
+		req := map[types.Object]map[string]bool{}
+		addReq := func(v types.Object, ks map[string]bool) {
+			if cur, ok := req[v]; ok {
+				for k := range cur {
+					if !ks[k] {
+						delete(cur, k)
+					}
+				}
+				return
+			}
+			cp := map[string]bool{}
+			for k := range ks {
+				cp[k] = true
+			}
+			req[v] = cp
+		}
+		var conjuncts func(e ast.Expr) []ast.Expr
+		conjuncts = func(e ast.Expr) []ast.Expr {
+			e = ast.Unparen(e)
+			if be, ok := e.(*ast.BinaryExpr); ok && be.Op == token.LAND {
+				return append(conjuncts(be.X), conjuncts(be.Y)...)
+			}
+			return []ast.Expr{e}
+		}
+		ast.Inspect(fd.Body, func(nd ast.Node) bool {
+			ifs, ok := nd.(*ast.IfStmt)
+			if !ok || !makesErr(ifs.Body) {
+				return true
+			}
+			for _, cj := range conjuncts(ifs.Cond) {
+				ue, ok := cj.(*ast.UnaryExpr)
+				if !ok || ue.Op != token.NOT {
+					// expectation function result tested against nil: err := expect(v); if err != nil {…}
+					continue
+				}
+				switch x := ast.Unparen(ue.X).(type) {
+				case *ast.Ident:
+					if ov, ok := okVars[info.Uses[x]]; ok && ov.v != nil {
+						ks := map[string]bool{}
+						for _, k := range kindsOfType(ov.t, nil) {
+							ks[k] = true
+						}
+						addReq(ov.v, ks)
+					}
+				case *ast.CallExpr:
+					if len(x.Args) == 1 {
+						if vid, ok := ast.Unparen(x.Args[0]).(*ast.Ident); ok {
+							if fo := calleeObj(info, x); fo != nil && fo.Pkg() == pk.Types {
+								addReq(info.Uses[vid], acceptedByFunc(fo, 0))
+							}
+						}
+					}
+				}
+			}
+			return true
+		})
+		// expectation functions passed as parameters: f(v) where f is a func-typed parameter
+		ast.Inspect(fd.Body, func(nd ast.Node) bool {
+			call, ok := nd.(*ast.CallExpr)
+			if !ok || len(call.Args) != 1 {
+				return true
+			}
+			fid, ok := ast.Unparen(call.Fun).(*ast.Ident)
+			vid, ok2 := ast.Unparen(call.Args[0]).(*ast.Ident)
+			if !ok || !ok2 {
+				return true
+			}
+			arg, isParam := paramArgs[info.Uses[fid]]
+			if !isParam {
+				return true
+			}
+			// the argument names a package-level func value: use its literal
+			if aid, ok := ast.Unparen(arg).(*ast.Ident); ok {
+				if gv, ok := info.Uses[aid].(*types.Var); ok {
+					for _, f := range pk.Syntax {
+						ast.Inspect(f, func(n3 ast.Node) bool {
+							vs, ok := n3.(*ast.ValueSpec)
+							if !ok {
+								return true
+							}
+							for i, nm := range vs.Names {
+								if info.Defs[nm] == types.Object(gv) && i < len(vs.Values) {
+									if fl, ok := vs.Values[i].(*ast.FuncLit); ok && fl.Type.Params.NumFields() == 1 && len(fl.Type.Params.List[0].Names) == 1 {
+										errRes := fl.Type.Results != nil && fl.Type.Results.NumFields() == 1
+										addReq(info.Uses[vid], acceptedBy(fl.Body, info.Defs[fl.Type.Params.List[0].Names[0]], errRes, 0))
+									}
+								}
+							}
+							return true
+						})
+					}
+				}
+			}
+			return true
+		})
+		for i, spec := range want {
+			construct := "validate." + fnShort(h) + ":" + kind + ":operand" + itoa(i)
+			if done[construct] {
+				continue
+			}
+			done[construct] = true
+			if spec == "any" {
+				continue
+			}
+			n++
+			if i >= len(operandExprs) {
+				r.Undec(rule, construct, p.pos(h.Pos()), "operand "+itoa(i)+" of "+kind+" is not typed by a call to the dispatcher in "+fnShort(h))
+				continue
+			}
+			ev := evalKindsOf(spec)
+			var got map[string]bool
+			has := false
+			for _, ov := range operandVars[operandExprs[i]] {
+				if g, ok := req[ov]; ok {
+					has = true
+					if got == nil {
+						got = map[string]bool{}
+					}
+					for k := range g {
+						got[k] = true
+					}
+				}
+			}
+			if !has || len(got) == 0 {
+				r.Viol(rule, construct, p.pos(h.Pos()), fnShort(h)+" puts no requirement on the type of operand "+itoa(i)+" of "+kind+"; the evaluator demands "+spec+": a policy with any other operand type validates and fails at run time with a type error")
+				continue
+			}
+			var extra, gotL []string
+			for k := range got {
+				gotL = append(gotL, k)
+				if !ev[k] {
+					extra = append(extra, k)
+				}
+			}
+			sort.Strings(extra)
+			sort.Strings(gotL)
+			r.Check(len(extra) == 0, rule, construct, p.pos(h.Pos()), "validator lets through {"+strings.Join(gotL, ",")+"} ⊆ evaluator "+spec,
+				fnShort(h)+" lets operand "+itoa(i)+" of "+kind+" through with type kind(s) {"+strings.Join(extra, ",")+"}, which the evaluator rejects (it demands "+spec+"): the policy validates and fails at run time with a type error")
+		}
+	}
+	if n < 25 {
+		r.Undec(rule, "validate:operand-table", "-", "only "+itoa(n)+" operand positions were compared (expected ≥ 25)")
+	}
 }
